@@ -44,6 +44,17 @@ func genChain(depth int, variant string) *chainProg {
 	w("\tv int")
 	w("}")
 	w("")
+	if variant == "emptycalls" {
+		w("func noop() {")
+		w("}")
+		w("")
+		w("func noop1(x int) {")
+		w("}")
+		w("")
+		w("func (t *T) touch() {")
+		w("}")
+		w("")
+	}
 	if imported {
 		w("func NewT() *T {")
 		w("\treturn &T{}")
@@ -70,6 +81,11 @@ func genChain(depth int, variant string) *chainProg {
 			w("\t\treturn x + 1")
 			w("\t}")
 			w("\tt.v += h(1)")
+		case "emptycalls":
+			// calls that have RETURNED (to functions with empty bodies, with and without parameters) are not active
+			w("\tnoop()")
+			w("\tnoop1(d)")
+			w("\tt.touch()")
 		case "rawstring":
 			// multi-line tokens before the fault: a raw string literal and a block comment spanning lines
 			w("\tnote := `first")
@@ -199,7 +215,7 @@ func checkC20(tier string, seed int64) int {
 	}
 	var chains []*chainProg
 	for _, d := range depths {
-		for _, v := range []string{"plain", "loop", "switch", "stmt", "multiline", "multiline2", "lambda", "rawstring", "imported"} {
+		for _, v := range []string{"plain", "loop", "switch", "stmt", "multiline", "multiline2", "lambda", "rawstring", "imported", "emptycalls"} {
 			chains = append(chains, genChain(d, v))
 		}
 	}
@@ -335,7 +351,7 @@ func checkC20(tier string, seed int64) int {
 	lagg.Into(c, "pos_lemma_")
 	c.Assumption("position lemma: line and column are arbitrary positive int32 values; file/function names from a fixed list; line and column must read back exactly below 65535, names always, and info must not fail for any value")
 	c.Cov("paths_compared", st.compared)
-	c.Cov("rule", fmt.Sprintf("call chains of depth %v through functions and methods, in nine variants (the chain in a package imported under a path that differs from its name, loaded with Load; plain, preceded by a loop, by a switch, by a function literal, by a multi-line raw string and block comment; call as statement; call spread over two lines in two ways) with seven fault kinds (index, divide by zero, panic, nil struct access, nil func call, nil map write, slice bounds) planted at generator-known lines in every level; symbolic selectors decide which fault fires at which depth, so all (depth, fault) pairs of a chain are covered by one exploration; the real error text is checked in three pipelines (public Eval, in-package optimizer on, optimizer off): first line = function and line of the fault, then one line per active call innermost first with the line of the call, and on == off", depths))
+	c.Cov("rule", fmt.Sprintf("call chains of depth %v through functions and methods, in ten variants (preceded by completed calls to empty functions; the chain in a package imported under a path that differs from its name, loaded with Load; plain, preceded by a loop, by a switch, by a function literal, by a multi-line raw string and block comment; call as statement; call spread over two lines in two ways) with seven fault kinds (index, divide by zero, panic, nil struct access, nil func call, nil map write, slice bounds) planted at generator-known lines in every level; symbolic selectors decide which fault fires at which depth, so all (depth, fault) pairs of a chain are covered by one exploration; the real error text is checked in three pipelines (public Eval, in-package optimizer on, optimizer off): first line = function and line of the fault, then one line per active call innermost first with the line of the call, and on == off", depths))
 	return c.Finish(false)
 }
 
